@@ -78,6 +78,8 @@ def gen(chk, mpmath, rng):
             sig = "/real-|x|>1"
         elif f in ("cospi", "sinpi") and abs(x) >= 16:
             sig = "/|x|>=16"
+        elif f in ("cospi", "sinpi") and not hasattr(b, "_mpc_") and abs(b) < 0.0625:
+            sig = "/near-zero"                  # next to a zero of the function: the reduced argument is formed in double arithmetic
         elif f == "atanh" and abs(x) > 1:
             sig = "/real-|x|>1"
         elif f == "acosh" and x < 1:
